@@ -154,6 +154,23 @@ AdvRegister(v, w) ==
   /\ regAt' = [p |-> now, s |-> IF (Locked(NP) > 0 /\ NS > reg.s) \/ w > reg.s THEN now ELSE regAt.s]
   /\ UNCHANGED <<ph, sh, sub, pfin, hold, tmo, concl, paid, acct, now>>
 
+(* Adv proposes a payment in S (1 to Hon), which waits for Hon's user; Adv registers an EARLIER state of L; Hon's     *)
+(* watcher refutes with the newest states; before the ledger emits the events of that refutation Hon's user accepts  *)
+(* the payment: Hon's newest state of S is now one version ahead of what its watcher has just registered.  If that   *)
+(* refutation changed what is registered for S (Adv had registered an older S, or none), the ledger's event for S    *)
+(* shows the watcher a version below its newest one and it registers the tree again.  If Adv had registered the      *)
+(* CURRENT S (w = NS), the refutation changes nothing for S, no event follows, and go-perun's watcher - which reacts *)
+(* to registered events only, never to newly published states - leaves S registered one version behind.  This is    *)
+(* what the code does; HonestNotRobbed does NOT hold for that case (known finding, DESIGN.md 12.4).                  *)
+AdvRegisterEchoS(v, w) ==
+  /\ Adversary /\ nreg < 2 /\ hold = "none" /\ Quiet /\ sub = "open" /\ NS < MaxS /\ SBal(Adv, NS) >= 1
+  /\ v \in 0..(NP - 1)
+  /\ IF Locked(v) > 0 THEN w \in 0..NS ELSE w = -1
+  /\ sh' = Append(sh, Move(sh[NS + 1], Adv, 1))
+  /\ nreg' = nreg + 1
+  /\ reg' = [p |-> NP, s |-> IF w = NS THEN NS ELSE NS + 1] /\ regAt' = [p |-> now, s |-> now]
+  /\ UNCHANGED <<ph, sub, pfin, hold, tmo, concl, paid, acct, now>>
+
 AdvConclude ==
   /\ Adversary /\ reg.p >= 0 /\ concl.p = -1 /\ now >= PeriodEnd(reg, regAt) /\ ~paid[Adv]
   /\ concl' = reg
@@ -188,7 +205,7 @@ Next ==
   \/ \E p \in P : HoldS(p) \/ SettleTimeout(p) \/ SettleP(p)
   \/ \E acc \in BOOLEAN : AnswerS(acc)
   \/ \E p \in P, amt \in 0..1 : FinalizeS(p, amt) \/ FinalizeP(p, amt)
-  \/ \E v \in 0..MaxP, w \in -1..MaxS : AdvRegister(v, w)
+  \/ \E v \in 0..MaxP, w \in -1..MaxS : AdvRegister(v, w) \/ AdvRegisterEchoS(v, w)
   \/ AdvConclude \/ Tick
 Spec == Init /\ [][Next]_vars
 
